@@ -526,6 +526,15 @@ func c08CLI(s *sut.SUT, c *ev.Check, g *gen.Gen, rng *rand.Rand) {
 			p := filepath.Join(d, "in.log.gz")
 			os.WriteFile(p, zz, 0o644)
 			run.Args = []string{"redact", p}
+			if ji%2 == 0 {
+				// faster decompressors may be installed: pigz, unpigz, zcat, igzip on PATH (here: wrappers around gzip)
+				bin := filepath.Join(d, "bin")
+				os.Mkdir(bin, 0o755)
+				for _, tool := range []string{"pigz", "unpigz", "igzip", "rapidgzip"} {
+					os.WriteFile(filepath.Join(bin, tool), []byte("#!/bin/sh\nexec gzip \"$@\"\n"), 0o755)
+				}
+				run.Env = append(run.Env, "PATH="+bin+":"+os.Getenv("PATH"))
+			}
 		}
 		r := s.CLI(run)
 		if r.TimedOut {
